@@ -167,7 +167,10 @@ def boOk (cs : Case) (schedT : String) (i : Impl) (t : List Ev) : Bool :=
   let accepted := calls.any (·.2)
   (boTokens schedT).all (fun (k, ev) =>
     let noMore := t.all (fun e => match e with | .un j => j ≤ k | .uf j _ => j ≤ k | _ => true)
-    if ev == "DR" || ev == "CC" then noMore
+    if ev == "DS" then
+      -- the client left while attempt k+1 was being sent: nothing beyond k+1, the exchange is finished and holds no upstream request
+      t.all (fun e => match e with | .un j => j ≤ k + 1 | .uf j _ => j ≤ k + 1 | _ => true) && i.done && i.up == 0
+    else if ev == "DR" || ev == "CC" then noMore
     else if ev == "GT" || ev == "GSm" || ev == "GSs" then noMore && i.done
     else if ev.startsWith "TM" then !accepted || (noMore && i.done)
     else true)
